@@ -354,6 +354,12 @@ def judge_op(c):
             and c.get("inputs") and (c["inputs"][0] or {}).get("dt") in ("f32", "f64"):
         # the axis is within [-rank, rank) and the element type is a float: the operator has to compute
         verdict, what = "violates", f"must compute (axis {c['p'].get('axis')} is valid), but {impl['status']}: {impl.get('msg','')[:100]}"
+    # a result that is not a plain contiguous tensor, and a follower that answers differently for it than for an
+    # equal contiguous tensor: a two-node model on which Run does not compute the dataflow value
+    if verdict != "violates" and impl.get("chain"):
+        verdict = "violates"
+        what = f"the result of {c.get('op')} is {impl.get('out_layout')}; handed on as Run does, the next operator answers differently than for an equal contiguous tensor - " + "; ".join(impl["chain"])[:300]
+        return J(corr=corr, verdict=verdict, tag="result_layout." + str(c.get("op")), what=what, key=key)
     # an operator instance that was applied before must answer like a fresh one
     if verdict != "violates" and impl.get("reuse"):
         verdict, what = "violates", "a re-used operator instance answers differently after " + "; ".join(impl["reuse"])[:200]
@@ -815,6 +821,26 @@ def judge_scale(c):
 
 
 JUDGES["scale"] = judge_scale
+
+
+def judge_bits(c):
+    """every Constant node delivers the bits it holds (payloads that are equal as numbers only)"""
+    impl = c["impl"]
+    key = ("bits", c.get("stream"), json_key(c.get("p")), impl["status"])
+    if impl["status"] != "ok":
+        return J(corr="skip", verdict="violates", tag=f"bits.{impl['status']}", what=f"model with Constant nodes: {impl.get('msg','')[:140]}", key=key)
+    bad = (impl.get("extra") or {}).get("mismatches") or []
+    if bad:
+        return J(corr="skip", verdict="violates", tag="bits.wrong", what="a Constant node delivers another node's bits: " + "; ".join(bad)[:300], key=key)
+    return J(corr="skip", verdict="holds", key=key)
+
+
+def json_key(x):
+    import json as _j
+    return _j.dumps(x, sort_keys=True, default=str)
+
+
+JUDGES["bits"] = judge_bits
 
 
 def judge_concurrent(c):
